@@ -59,6 +59,8 @@ func (p *Prog) JS() string {
 			sb.WriteString(fmt.Sprintf("delete b[%s];\n", jsText(op.K)))
 		case "delall":
 			sb.WriteString("Object.keys(b).forEach(function(k) { delete b[k]; });\n")
+		case "poke":
+			sb.WriteString(fmt.Sprintf("(function(v){ if (Array.isArray(v)) { if (v.length > 0 && v[0] !== null && typeof v[0] === 'object' && !Array.isArray(v[0])) { v[0].poked = 1; } else { v.push(1); } } else if (v !== null && typeof v === 'object') { v.poked = 1; } })(b[%s]);\n", jsText(op.K)))
 		}
 	}
 	switch p.Term {
@@ -76,6 +78,12 @@ func (p *Prog) JS() string {
 		sb.WriteString("for(;;){}\n")
 	case "emitbad":
 		sb.WriteString("_.out(function(){}); return _.bindings;\n")
+	case "retbad":
+		if len(p.Ops)%2 == 0 {
+			sb.WriteString("return {x: function(){}};\n")
+		} else {
+			sb.WriteString("return {x: 0/0, y: 1};\n")
+		}
 	}
 	return sb.String()
 }
@@ -140,6 +148,20 @@ func (p *Prog) Native(exeOnError bool) core.Action {
 				for k := range b {
 					delete(b, k)
 				}
+			case "poke":
+				// b is a private deep copy: mutate the nested value in place
+				switch v := b[op.K].(type) {
+				case []interface{}:
+					if len(v) > 0 {
+						if m, ok := v[0].(map[string]interface{}); ok {
+							m["poked"] = 1.0
+							break
+						}
+					}
+					b[op.K] = append(v, 1.0)
+				case map[string]interface{}:
+					v["poked"] = 1.0
+				}
 			}
 		}
 		switch p.Term {
@@ -184,6 +206,8 @@ func (p *Prog) coq() string {
 			ops = append(ops, "ADel "+coqString(op.K))
 		case "delall":
 			ops = append(ops, "ADelAll")
+		case "poke":
+			ops = append(ops, "APoke "+coqString(op.K))
 		}
 	}
 	var term string
@@ -203,6 +227,8 @@ func (p *Prog) coq() string {
 		term = "TLoop"
 	case "emitbad":
 		term = "TEmitBad"
+	case "retbad":
+		term = "TRetBad"
 	}
 	return "(mk_prog " + coqList(ops) + " " + term + ")"
 }
@@ -229,30 +255,57 @@ func (g *G) smallJSON() interface{} {
 	return g.value(2)
 }
 
+var permKeys = []string{"cfg!", "ver!", "p!"}
+
+// key: a binding name; in c18 mode mostly a permanent one
+func (g *G) key() string {
+	if g.mode == "c18" && g.chance(0.6) {
+		return g.pick(permKeys)
+	}
+	return g.pick(bindKeys)
+}
+
 func (g *G) prog(guard bool) *Prog {
 	p := &Prog{}
 	nops := g.intn(4)
 	if guard {
 		nops = g.intn(2)
+		if g.mode == "c18" {
+			nops = g.intn(3)
+		}
 	}
 	for i := 0; i < nops; i++ {
-		switch k := g.intn(12); {
+		switch k := g.intn(13); {
+		case k == 12:
+			p.Ops = append(p.Ops, Op{Kind: "poke", K: g.key()})
 		case k < 4:
 			p.Ops = append(p.Ops, Op{Kind: "emit", J: map[string]interface{}{"e": g.smallJSON(), "to": "nobody"}})
 		case k < 5:
-			p.Ops = append(p.Ops, Op{Kind: "emitb", K: g.pick(bindKeys)})
+			p.Ops = append(p.Ops, Op{Kind: "emitb", K: g.key()})
 		case k < 8:
-			p.Ops = append(p.Ops, Op{Kind: "set", K: g.pick(bindKeys), J: g.smallJSON()})
+			p.Ops = append(p.Ops, Op{Kind: "set", K: g.key(), J: g.smallJSON()})
 		case k < 9:
-			p.Ops = append(p.Ops, Op{Kind: "copy", K: g.pick(bindKeys), K2: g.pick(bindKeys)})
+			p.Ops = append(p.Ops, Op{Kind: "copy", K: g.key(), K2: g.key()})
 		case k < 11:
-			p.Ops = append(p.Ops, Op{Kind: "del", K: g.pick(bindKeys)})
+			p.Ops = append(p.Ops, Op{Kind: "del", K: g.key()})
 		default:
 			p.Ops = append(p.Ops, Op{Kind: "delall"})
 		}
 	}
 	k := g.intn(100)
-	if guard {
+	if guard && g.mode == "c18" {
+		// accepting guards that delete, overwrite or replace
+		switch {
+		case k < 60:
+			p.Term = "bindings"
+		case k < 80:
+			p.Term = "fresh"
+		case k < 92:
+			p.Term = "null"
+		default:
+			p.Term = "throw"
+		}
+	} else if guard {
 		switch {
 		case k < 55:
 			p.Term = "bindings"
@@ -279,14 +332,16 @@ func (g *G) prog(guard bool) *Prog {
 			p.Term = "throw"
 		case k < 93:
 			p.Term = "loop"
-		default:
+		case k < 97:
 			p.Term = "emitbad"
+		default:
+			p.Term = "retbad"
 		}
 	}
 	if p.Term == "fresh" {
 		p.Kvs = map[string]interface{}{}
 		for n := g.intn(3); n > 0; n-- {
-			p.Kvs[g.pick(bindKeys)] = g.smallJSON()
+			p.Kvs[g.key()] = g.smallJSON()
 		}
 	}
 	return p
